@@ -421,7 +421,7 @@ pub fn case_json(case: &Case) -> Value {
 pub fn cmd(args: &Args) -> Report {
     let mut rep = Report::new("C19");
     let mut rng = Rng::new(args.stream_seed("c19"));
-    let cases = args.cases(40_000, 800_000);
+    let cases = args.cases(400_000, 6_000_000);
     for i in 0..cases {
         let case = gen_case(&mut rng);
         vcommon::mark_case(&format!("c19:{}:{}:{}", args.seed, args.shard, i));
